@@ -119,8 +119,8 @@ def build(stream, p):
         call = enc_call(52, k, h, ms, t, p["vsel"], bits, int(fast), gen.enc_table(table), fuel)
         enc = lambda r: [[r[0]], s2c(r[1]), [r[2], r[3]], r[4]]
     else:
-        call = None
-        enc = lambda r: [[r[0]], s2c(r[1])]
+        call = enc_call(54, k, p["table"], t, p["vsel"], bits, int(fast), gen.enc_table(table), fuel)
+        enc = lambda r: [[r[0]], s2c(r[1]), r[4]]
     impl = lambda: guard(run, enc, seconds=60)
 
     def oracle(ans, raw):
